@@ -18,6 +18,22 @@ def role_of(fn, op):
     """Classify what an integer operand counts, from its provenance."""
     pr = M.Prov(fn, max_depth=12)
     e = pr.operand(op)
+    # the number inside a TerminalID *is* a user's token type (TerminalIDBase = usize), wherever it is read
+    def reads_terminal_id(o, depth=0):
+        p = o.get("p") if o.get("k") in ("copy", "move") else None
+        if p is None:
+            return False
+        if any(x["k"] == "field" and str(x.get("adt", "")).endswith("ids::TerminalID") for x in p["pj"]):
+            return True
+        if not p["pj"] and depth < 3:
+            d = fn.single_def(p["l"])
+            if d is not None and d["kind"] == "assign":
+                st = fn.blocks[d["bb"]]["stmts"][d["idx"]]
+                if st["rv"]["k"] == "use":
+                    return reads_terminal_id(st["rv"]["op"], depth + 1)
+        return False
+    if reads_terminal_id(op):
+        return "user-token-type", e
     names = " ".join(x[1] for x in M.walk_expr(e) if x[0] == "call")
     names += " " + " ".join(str(x[3]) for x in M.walk_expr(e) if x[0] == "call")
     leafs = M.expr_leaf_names(e)
